@@ -184,6 +184,11 @@ func (t *tr) pcs(e ast.Expr, cond bool, hoist *[]*ast.CallExpr) []string {
 	if tv, ok := t.p.info.Types[e]; ok && tv.Value != nil {
 		return nil
 	}
+	if t.seven != nil {
+		if c, ok := t.pcs7(e, cond, hoist); ok {
+			return c
+		}
+	}
 	if t.spec.round6 {
 		if c, ok := t.pcs6(e, cond, hoist); ok {
 			return c
